@@ -25,9 +25,17 @@ ASSUMPTIONS = []
 
 def gen_case(R, tier):
   c = R("case")
+  o = R("order")
+  if c.random() < 0.3:
+    # hierarchy-only family: interfaces (nested, in 1-3 dimensional lists, with struct / list ports and
+    # method ports), n-dimensional component lists, CL method ports, pass-through interface connects
+    from ..gen import ifchier
+    uid = "j%x" % (R.seed & 0xffffff)
+    src, gst = ifchier.gen(random.Random(c.getrandbits(48)), uid)
+    return {"family": "ifc", "uid": uid, "src": src, "gen_stats": gst,
+            "orderings": [[o.getrandbits(32), o.getrandbits(32), o.getrandbits(32)] for _ in range(3)]}
   prof = c.choice(["shapes", "acyclic", "ff_heavy", "big", "shapes"])
   spec = designgen.DesignGen(c, prof, uid="h%x" % (R.seed & 0xffffff)).gen()
-  o = R("order")
   return {"spec": spec, "orderings": [[o.getrandbits(32), o.getrandbits(32), o.getrandbits(32)] for _ in range(4)]}
 
 
@@ -86,7 +94,53 @@ def touch_lazily(top, spec, r):
   return n
 
 
+def run_ifc(case):
+  from ..gen import emit
+  D = _rng.Digest()
+  src, gst = case["src"], case["gen_stats"]
+  stats = {"fault_counts": {"family.ifc": 1}, "objects": 0,
+           "probes": {"lazy_signals": 0, "component_lists": gst["comp_lists_nd"], "interface_lists": gst["ifc_lists"],
+                      "nested_interfaces": gst["nested_ifcs"], "method_ports": gst["method_ports"],
+                      "passthrough_connects": gst.get("passthrough", 0)}}
+  viols = []
+  names0 = None
+  for k, (oseed, hseed, lseed) in enumerate(case["orderings"]):
+    seams.set_hash_stream(hseed)
+    stats["fault_counts"]["order.hash"] = stats["fault_counts"].get("order.hash", 0) + 1
+    try:
+      ns, cls, _ = emit.build({"uid": case["uid"] + "k%d" % k, "top": "Top"},
+                              src=src.replace(case["uid"], case["uid"] + "k%d" % k))
+      top = cls()
+      top.elaborate()
+      if k >= 1:
+        lazy = touch_lazily(top, None, random.Random(lseed))
+        stats["fault_counts"]["order.lazy"] = stats["fault_counts"].get("order.lazy", 0) + lazy
+    except SliceOfSliceError as e:
+      viols.append(C.viol("slice_of_slice_names_other_bits", {"ordering": k, "what": str(e), "family": "ifc"}))
+      break
+    except Exception as e:
+      viols.append(C.exc_violation(e, "elaborate/ifc/ordering%d" % k))
+      break
+    bad, names = E.names_invariant(top)
+    if bad:
+      viols.append(C.viol(bad.pop("check"), dict(bad, ordering=k, family="ifc")))
+      break
+    decl = {n for n in names if ":" not in n.rsplit("[", 1)[-1]}
+    if names0 is None:
+      names0 = decl
+      D.add(sorted(names))
+      stats["objects"] = len(names)
+      stats["probes"]["lazy_signals"] = 1
+    elif not names0 <= decl:
+      viols.append(C.viol("name_set_differs", {"ordering": k, "missing": sorted(names0 - decl)[:4], "family": "ifc"}))
+      break
+  return {"violations": viols, "digest": D.hex(),
+          "nontrivial": stats["objects"] >= 30 and (gst["ifc_lists"] + gst["nested_ifcs"] >= 1), "stats": stats}
+
+
 def run_case(case):
+  if case.get("family") == "ifc":
+    return run_ifc(case)
   spec0 = case["spec"]
   D = _rng.Digest()
   stats = {"fault_counts": {}, "objects": 0, "probes": {"lazy_signals": 0, "component_lists": 0}}
@@ -142,6 +196,8 @@ def _fields(names):
 
 def sample(case):
   from ..gen import emit
+  if case.get("family") == "ifc":
+    return {"orderings": case["orderings"], "source_head": case["src"][:1200]}
   return {"orderings": case["orderings"], "source_head": emit.source(case["spec"])[:1200]}
 
 
@@ -149,6 +205,22 @@ def shrink(case):
   if len(case["orderings"]) > 1:
     for i in range(1, len(case["orderings"])):
       yield dict(case, orderings=[case["orderings"][0], case["orderings"][i]])
+  if case.get("family") == "ifc":
+    # drop member declarations (and the pass-through loops that use them) line by line; a candidate that
+    # no longer elaborates fails with a different check and is rejected by the shrinker
+    lines = case["src"].split("\n")
+    n = len(lines)
+    size = max(1, n // 4)
+    while size >= 1:
+      for i in range(0, n, size):
+        chunk = lines[i:i + size]
+        if any(l.startswith(("class ", "from ")) or l.startswith("  def ") for l in chunk):
+          if size > 1:
+            continue
+          continue
+        yield dict(case, src="\n".join(lines[:i] + lines[i + size:]))
+      size //= 2
+    return
   fake = dict(case, inputs=[{}])
   for cand in C.shrink_spec_case(fake, keep_sched_key="_none"):
     c2 = dict(cand)
